@@ -56,6 +56,14 @@ func NewNetConnectionServerCommunicator(server *dns.Server) (*NetConnectionServe
 func (n *NetConnectionServerCommunicator) handleRequest(w dns.ResponseWriter, r *dns.Msg) {
 	var resp *dns.Msg
 	var err error
+
+	// The DNS library does not recover from panics in handlers; one bad message must not take the server down
+	defer func() {
+		if r := recover(); r != nil {
+			log.Errorf("Panic while handling DNS request -- will not send anything back: %v", r)
+		}
+	}()
+
 	if n.onMessage != nil {
 		resp, err = n.onMessage(r, w.RemoteAddr())
 	}
@@ -63,6 +71,10 @@ func (n *NetConnectionServerCommunicator) handleRequest(w dns.ResponseWriter, r 
 	if err != nil {
 		err = errors.WithStack(err)
 		log.WithError(err).Errorf("Failed preparing response -- will not send anything back: %v", err)
+		return
+	}
+
+	if resp == nil {
 		return
 	}
 
